@@ -42,13 +42,14 @@ func main() {
 	}
 	r := evidence.New("C08", "exploration")
 	r.Rule("case = (seeded DAG of 6–26 nodes incl. referrers, indexes, absent subjects, a sha512 blob; AutoSaveIndex on|off; AutoGC on|off; 3–6 reference names incl. unicode/odd ones; " +
-		"random history of 12–45 Push/Tag/re-tag/Untag/Delete/GC/SaveIndex steps with tag descriptors carrying annotations, platform (os/architecture/variant/os.version/os.features), artifactType, urls and data alone and combined (also re-tags changing only those fields), tag descriptors obtained from Resolve(<digest>) (octet-stream media type for plain blobs), tags on blobs, several tags per manifest, some operations aimed at absent operands, some histories continuing on the reopened store). " +
+		"random history of 12–45 Push/Tag/re-tag/Untag/Delete/GC/SaveIndex steps with tag descriptors carrying annotations, platform (os/architecture/variant/os.version/os.features), artifactType, urls and data alone and combined (also re-tags changing only those fields), tag descriptors obtained from Resolve(<digest>) (octet-stream media type for plain blobs), hand-made octet-stream descriptors on manifests that keep a pinned name under their manifest type (sometimes followed by a typed tag), tags on blobs, several tags per manifest, some operations aimed at absent operands, some histories continuing on the reopened store). " +
 		"Oracle: on-disk validity after every step (AutoSaveIndex on) and after every SaveIndex (off); Obs(original)=Obs(reopened) after every step via fs.FS and at checkpoints via rw, fs.FS, archive/tar tar, system tar, and (at checkpoints and a quarter of the steps) via archives made earlier in the history and updated in place by appending the changed files (system tar -r; archive/tar append mode; re-made when a file disappeared), " +
 		"Obs = Tags, Resolve of every reference name used, Resolve of every digest seen (incl. never-pushed and foreign ones), Exists, Fetch bytes, Predecessors of every node. " +
 		"distinct = hash(options, sequence of operation kinds with outcomes); non-trivial = history contains a successful re-tag or untag and a successful delete or GC. " +
 		"Concurrent sub-phase (also under the race detector): 2–12 goroutines Push/Tag/re-tag/Untag on one store (AutoSaveIndex on, colliding reference names, yield hook between resolver update and index save); after all returned: on-disk validity and Obs(original)=Obs(reopened) on all four paths; distinct = per-goroutine operation kinds; non-trivial = ≥ 2 goroutines and ≥ 4 operations that rewrote index.json")
 	r.Assume("concurrent sub-phase: interleavings are sampled, not enumerated; no expectation on which final state is reached, only original = reopened at quiescence")
 	r.Assume("content is pushed under one media type per digest (media-type twins among pushed nodes are C01's shape, as in C07); descriptors passed to Tag are the pushed one or the one Resolve(<digest>) returns, both with the true size")
+	r.Assume("a manifest recorded in index.json ONLY under application/octet-stream is a plain blob for every reopened store (successors are decided by the descriptor's media type), while the live store keeps the edges of the typed Push: not demanded, so a manifest that gets an octet-stream tag keeps one never-moved name under its manifest type")
 	r.Assume("reference names are valid UTF-8 (JSON cannot carry other byte strings)")
 	r.Assume("with AutoSaveIndex off the directory is only judged after an explicit SaveIndex, as the statement says")
 	worker.Run(r, worker.Opts{Phase: "hist", Total: r.N(400, 6000), Batch: r.N(20, 50)})
@@ -366,6 +367,9 @@ func runCase(phase string, i int) worker.Result {
 			case "tag":
 				if isRetag {
 					retagOrUntag = true
+				}
+				if op.Octet {
+					res.Count("tag_descriptors_octet_stream_on_manifests", 1)
 				}
 				if op.Resolved {
 					res.Count("tag_descriptors_via_resolve", 1)
